@@ -924,19 +924,20 @@ func c16GenWire(r *rand.Rand) Case {
 	for i := range t3 {
 		t3[i] = 16 + r.Intn(40)
 	}
-	// X: LINELEN 196..230 (MaxEventLength 100..134 with NICKLEN=9), four events of 60..95 bytes
-	// whose costs add up to 7.6..8.0 s, a text of 2.2..3 pieces
+	// X: LINELEN 196..230 (MaxEventLength 100..134 with NICKLEN=9), four events of 90..99 bytes
+	// whose costs add up to 7.82..7.96 s (never held: <= 8 s), a text of 2.4..2.9 pieces: even
+	// if every sleep inside the Send is forgiven, the last piece is rated at >= 7.82 + 1.45 s
 	linelen := 196 + r.Intn(35)
 	xl := []int{16 + r.Intn(15), 0, 0, 0, 0}
 	for {
-		total := 362 + r.Intn(37)
-		xl[1], xl[2], xl[3] = 85+r.Intn(11), 85+r.Intn(11), 85+r.Intn(11)
+		total := 382 + r.Intn(15)
+		xl[1], xl[2], xl[3] = 93+r.Intn(7), 93+r.Intn(7), 93+r.Intn(7)
 		xl[4] = total - xl[1] - xl[2] - xl[3]
-		if xl[4] >= 60 && xl[4] <= 95 {
+		if xl[4] >= 90 && xl[4] <= 99 {
 			break
 		}
 	}
-	textlen := (linelen - 96 - 12) * (22 + r.Intn(8)) / 10
+	textlen := (linelen - 96 - 13) * (24 + r.Intn(6)) / 10
 	c := Case{c16Join("S", sl), c16Join("P", []int{pong, ping}), c16Join("T", append([]int{1}, t1...)),
 		c16Join("T", append([]int{3}, t3...)), "F 50", c16Join("X", append(append([]int{linelen}, xl...), textlen))}
 	return append(c, c16Checksum(c))
